@@ -36,6 +36,9 @@ RUN_PROFILES = {
     # ... every service completes at once: instance 0 is over before instance 1 is announced
     "params_imm_all": dict(params=1.0, item_bias=0.9, imm=1.0, max_block=2, max_tasks=3,
                            w={"parloop": 7, "count": 1, "call": 3, "service": 3, "cond": 0, "while": 0, "parallel": 1}),
+    # several registered functions: every one of them sees the same substituted list
+    "params_listeners": dict(params=1.0, item_bias=0.8, imm=0.1, listeners=0.5, max_block=3,
+                             w={"parloop": 5, "count": 3, "call": 3, "service": 3, "cond": 0, "while": 0, "parallel": 1}),
     "hostile_append": dict(params=1.0, mutate="append", w={"count": 4, "parloop": 2, "call": 3}),
     "hostile_clear": dict(params=1.0, mutate="clear", w={"count": 4, "parloop": 2, "call": 3}),
     "hostile_replace": dict(params=1.0, mutate="replace", w={"count": 4, "parloop": 2, "call": 3}),
@@ -85,7 +88,7 @@ PROPS = {
                 profiles=["uuid", "uuid_cond_loops", "uuid_loops_calls", "loops", "parloop", "parallel", "react_loops", "ids_junk"], quick=240, thorough=6000,
                 finding_profiles=["parloop_all"]),
     "C15": dict(kind="run", proj="P_C15", mon="mon_C15", property_files=("C15net", "C15params", "C04decide"),
-                profiles=["params", "params_indexed", "params_imm", "params_imm_all", "hostile_append", "hostile_clear", "hostile_replace"],
+                profiles=["params", "params_indexed", "params_imm", "params_imm_all", "params_listeners", "hostile_append", "hostile_clear", "hostile_replace"],
                 quick=240, thorough=6000, finding_profiles=["parloop_all"]),
     "C17": dict(kind="run", proj="P_C17", mon="mon_C17", property_files=("C20net", "C17obs", "RefinementTransfer"), extra_kinds=("obs",), py_monitor="petri_net_notices",
                 profiles=["observers", "observers_loops", "observers_uuid_loops"], quick=200, thorough=5000, finding_profiles=["observers_parloop"]),
